@@ -370,6 +370,33 @@ class Interp:
             h = self.heap[it[1]]
             if not h["dyn"]:
                 return list(h["elts"])
+        # views of a dict literal whose keys are all constants
+        if it[0] == "mcall" and it[2] in ("items", "keys", "values") and not it[3] \
+                and it[1][0] == "dictobj":
+            h = self.heap[it[1][1]]
+            # (module-level constant tables such as EXPLOIT_KEYS stay symbolic: the loader rules
+            # speak about "every key of the table")
+            if not h["dyn"] and not h.get("const"):
+                if it[2] == "items":
+                    return [("tuple", (C(k), v)) for k, v in h["items"].items()]
+                if it[2] == "keys":
+                    return [C(k) for k in h["items"]]
+                return list(h["items"].values())
+        if it[0] == "dictobj":
+            h = self.heap[it[1]]
+            if not h["dyn"] and not h.get("const"):
+                return [C(k) for k in h["items"]]
+        if it[0] == "call" and it[1] in ("builtins.list", "builtins.tuple") and len(it[2]) == 1 \
+                and not it[3]:
+            return self._literal_elements(it[2][0])
+        if it[0] == "call" and it[1] == "builtins.enumerate" and len(it[2]) == 1 and not it[3]:
+            inner = self._literal_elements(it[2][0])
+            if inner is not None:
+                return [("tuple", (C(i), v)) for i, v in enumerate(inner)]
+        if it[0] == "call" and it[1] == "builtins.zip" and len(it[2]) >= 2 and not it[3]:
+            parts = [self._literal_elements(x) for x in it[2]]
+            if all(p is not None for p in parts) and len({len(p) for p in parts}) == 1:
+                return [("tuple", tuple(col)) for col in zip(*parts)]
         return None
 
     def _for(self, s, st, act):
